@@ -19,6 +19,7 @@ import (
 	"os"
 	"os/exec"
 	"sync"
+	"sync/atomic"
 	"time"
 
 	"github.com/cometbft/cometbft/abci/types"
@@ -172,14 +173,72 @@ func startTwin(seed uint64, tie, rts, upg bool, idx int, bg bool, name string, e
 }
 
 func (t *twin) call(req *wireReq) (*wireResp, error) {
-	if err := t.enc.Encode(req); err != nil {
-		return nil, fmt.Errorf("twin %s: write: %w", t.name, err)
-	}
 	var resp wireResp
-	if err := t.dec.Decode(&resp); err != nil {
-		return nil, fmt.Errorf("twin %s: process died or protocol error: %w", t.name, err)
+	var rerr error
+	berr := withDeadline("process-separated "+t.name+" "+req.Op, func() string { return req.Op }, func() {
+		if err := t.enc.Encode(req); err != nil {
+			rerr = fmt.Errorf("twin %s: write: %w", t.name, err)
+			return
+		}
+		if err := t.dec.Decode(&resp); err != nil {
+			rerr = fmt.Errorf("twin %s: process died or protocol error: %w", t.name, err)
+		}
+	})
+	if berr != nil {
+		if t.cmd != nil && t.cmd.Process != nil {
+			_ = t.cmd.Process.Kill()
+		}
+		return nil, berr
+	}
+	if rerr != nil {
+		return nil, rerr
 	}
 	return &resp, nil
+}
+
+// ---------- watchdog ----------
+
+// callDeadline is the budget of one replica operation (one Prepare/ProcessProposal, one
+// BeginBlock..Commit sequence, one restart); a blown deadline is confirmed once with a doubled
+// budget before it is reported.
+var callDeadline = 60 * time.Second
+
+// blockedError reports an operation that did not return.
+type blockedError struct {
+	Who  string
+	Call string
+	Wait time.Duration
+}
+
+func (e *blockedError) Error() string {
+	return fmt.Sprintf("%s is blocked in %s (no return after %s)", e.Who, e.Call, e.Wait.Round(time.Second))
+}
+
+var anyBlocked atomic.Bool
+
+// withDeadline runs f in a goroutine; nil if it returned in time.
+func withDeadline(who string, current func() string, f func()) error {
+	done := make(chan struct{})
+	go func() {
+		defer close(done)
+		f()
+	}()
+	select {
+	case <-done:
+		return nil
+	case <-time.After(callDeadline):
+	}
+	call := current()
+	select {
+	case <-done: // slow, not blocked
+		return nil
+	case <-time.After(2 * callDeadline):
+	}
+	anyBlocked.Store(true)
+	if c2 := current(); c2 != "" {
+		call = c2
+	}
+	return &blockedError{Who: who, Call: call, Wait: 3 * callDeadline}
 }
 
 func (t *twin) close() {
@@ -216,7 +275,11 @@ func txListsEqual(a, b [][]byte) bool {
 }
 
 func (c *c01Run) propose(i int, in *muxdrv.BlockInput, cands [][]byte) ([][]byte, error) {
-	txs, err := c.reps[i].Propose(in, cands)
+	var txs [][]byte
+	var err error
+	if berr := withDeadline("replica "+c.reps[i].Cfg.Name, c.reps[i].CurrentCall, func() { txs, err = c.reps[i].Propose(in, cands) }); berr != nil {
+		return nil, berr
+	}
 	if err != nil || c.twins == nil {
 		return txs, err
 	}
@@ -238,10 +301,14 @@ func (c *c01Run) propose(i int, in *muxdrv.BlockInput, cands [][]byte) ([][]byte
 func (c *c01Run) execOn(i int, op string, in *muxdrv.BlockInput, txs [][]byte) (*muxdrv.BlockResult, error) {
 	var res *muxdrv.BlockResult
 	var err error
-	if op == "process" {
-		res, err = c.reps[i].Process(in, txs)
-	} else {
-		res, err = c.reps[i].Replay(in, txs)
+	if berr := withDeadline("replica "+c.reps[i].Cfg.Name, c.reps[i].CurrentCall, func() {
+		if op == "process" {
+			res, err = c.reps[i].Process(in, txs)
+		} else {
+			res, err = c.reps[i].Replay(in, txs)
+		}
+	}); berr != nil {
+		return nil, berr
 	}
 	if err != nil || c.twins == nil {
 		return res, err
@@ -262,8 +329,12 @@ func (c *c01Run) execOn(i int, op string, in *muxdrv.BlockInput, txs [][]byte) (
 }
 
 func (c *c01Run) restart(i int, ncfg *muxdrv.ReplicaConfig) error {
-	if err := c.reps[i].Restart(ncfg); err != nil {
-		return err
+	var rerr error
+	if berr := withDeadline("replica "+c.reps[i].Cfg.Name, func() string { return "Restart" }, func() { rerr = c.reps[i].Restart(ncfg) }); berr != nil {
+		return berr
+	}
+	if rerr != nil {
+		return rerr
 	}
 	if c.twins == nil {
 		return nil
